@@ -4,7 +4,11 @@ namespace Wpull.Pipeline
 open Wpull Wpull.Proto
 
 /-- `P`, `M`, `G`, `T<i>` (task of item i completes), `X<i>` (it raises), `S`, `C<n>` -/
-def decAct? (t : String) : Option Act :=
+def decAct? (t : String) : Option (Act ⊕ Nat) :=
+  match t.toList with
+  | 'R' :: r => (String.ofList r).toNat?.map Sum.inr
+  | _ => (decAct1? t).map Sum.inl
+where decAct1? (t : String) : Option Act :=
   match t.toList with
   | ['P'] => some .prod
   | ['M'] => some .main
@@ -36,10 +40,10 @@ def digest (s : St) : String :=
   ++ ";" ++ m ++ ";" ++ enabledStr s
 
 /-- replay the action list; one digest per action, `!` + the action index when it is not enabled -/
-def replay (c : Cfg) : St → Nat → List Act → List String → List String
+def replay (c : Cfg) : St → Nat → List (Act ⊕ Nat) → List String → List String
   | _, _, [], acc => acc.reverse
   | s, k, a :: as, acc =>
-    match step c s a with
+    match stepR c s a with
     | none => (("!" ++ toString k) :: acc).reverse
     | some s' =>
       let evs := s'.log.drop s.log.length
